@@ -35,15 +35,16 @@ SPEC = {
         "FIFO buffered channels, blocking send/receive, range ends on closed+drained, WaitGroup.Wait returns after all Done); "
         "translator/ext_C11.go re-extracts the skeleton from the AST each run (C11_protocol_matches_source); ctx.Done() cancellation not modelled",
         "Go scheduler / memory model: arrival orders are over-approximated by all paths of the transition system / all permutations; data-race freedom is NOT proved "
-        "(thorough tier runs a -race build over workers x GOMAXPROCS: search, not proof)",
+        "(both tiers run a -race build of the same tree over generated `bulk` lint scenarios with non-default check settings and generated "
+        "`pint ci` git histories with --workers 4/16, the thorough tier over workers x GOMAXPROCS: search, not proof)",
     ],
     "assumptions": [
         "H1 (isEqual symmetric on the stream and implies equality of rendered fields) and H2 (sort key injective on isEqual classes) are "
         "premises of C11_perm_invariant; they are evaluated on every recorded real stream (histogram real:H1=..,H2=..), and every real "
         "stream is additionally replayed under job-order-preserving interleavings through the real Summary and reporters",
         "J-loc / J-diag (premises of C11_H2_from_job_invariants) are properties of what checks answer; not proved, H2 is monitored instead",
-        "the reports a job produces depend only on (entry, check, all entries), not on scheduling (checked by the binary runs "
-        "with --workers 1/4/16/64 only)",
+        "the reports a job produces depend only on (entry, check, all entries), not on scheduling or on state shared with other workers "
+        "(searched by the binary runs with --workers 1..64 and the -race runs; two seeded races of this kind are caught, see notes/C11.md)",
     ],
 }
 
@@ -62,8 +63,9 @@ MANIFEST = {
             "(Owner-only difference; asymmetric diagnostics). H2 follows from two named invariants of the job enumeration (a location belongs to one "
             "entry; the first diagnostic determines the rest) that are statements about opaque checks, so H2 stays monitored. isEqual reads the "
             "position of every diagnostic (two genuine schedule dependences found with this check were fixed in /repo: 1588b37, d8f60c6; their "
-            "witnesses are replayed every run). Partial by nature: data-race freedom is a runtime remainder covered only by "
-            "-race runs in the thorough tier. The model is tied to the code on every run by differential execution of the real Summary, "
+            "witnesses are replayed every run). Partial by nature: data-race freedom and the independence of a job's answer from what other workers do are "
+            "a runtime remainder, searched in both tiers by a -race build and by comparing --workers 1 with 2..64 on scenarios in which every check runs many "
+            "times concurrently (bulk lint files with non-default check settings, generated `pint ci` histories with removed rules that have dependants). The model is tied to the code on every run by differential execution of the real Summary, "
             "JSON and console reporters on generated streams and their permutations, by evaluating H1/H2 on streams recorded from the real "
             "check pipeline and replaying interleavings through the real code, and by running the real binary with --workers 1/4/16/64.",
     "note": "Coq 8.16.1 kernel+VM, no axioms. Trusted: translator/ext_C11.go (go/ast skeleton extraction, fails closed) and the reading of "
@@ -71,7 +73,7 @@ MANIFEST = {
             "closed+drained, WaitGroup); hand model of reporter.go/json.go/console headers and of go1.24 SortStableFunc "
             "(validated differentially, not verified from source); harness replica of checkRules' job enumeration (validated against the binary); "
             "Rule.IsSame treated as class equality; scheduler/memory model outside the model.",
-    "technique": "Coq theorem over list/fold model (stable-sort uniqueness under a strict total order) + differential correspondence on permuted streams + H1/H2 monitoring of real streams + binary runs across worker counts (+ -race matrix in thorough)",
+    "technique": "Coq theorem over list/fold model (stable-sort uniqueness under a strict total order) + differential correspondence on permuted streams + H1/H2 monitoring of real streams + binary runs across worker counts + -race build on bulk/ci scenarios (matrix in thorough) + AST-extracted concurrency skeleton",
 }
 
 
